@@ -27,6 +27,7 @@ pub trait Kind: 'static {
     /// copies the body bytes (accessor `body().data()`), returns their number; no allocation
     fn body_data(h: &Self::H, out: &mut [u8; 64]) -> usize;
     fn hash_buf(b: &[u8]) -> Result<Self::H, GeneratorError>;
+    fn compare_str(a: &str, b: &str) -> Result<u32, tlsh::ParseErrorEither>;
     #[cfg(not(feature = "nostd"))]
     fn hash_stream<R: std::io::Read>(r: &mut R) -> Result<Self::H, tlsh::GeneratorOrIOError>;
     #[cfg(not(feature = "nostd"))]
@@ -58,6 +59,9 @@ macro_rules! kind {
             }
             fn hash_buf(b: &[u8]) -> Result<Self::H, GeneratorError> {
                 tlsh::hash_buf_for::<tlsh::hashes::$t>(b)
+            }
+            fn compare_str(a: &str, b: &str) -> Result<u32, tlsh::ParseErrorEither> {
+                tlsh::compare_with::<tlsh::hashes::$t>(a, b)
             }
             #[cfg(not(feature = "nostd"))]
             fn hash_stream<R: std::io::Read>(r: &mut R) -> Result<Self::H, tlsh::GeneratorOrIOError> {
